@@ -356,6 +356,10 @@ _OPERATORS = ['op:round', 'op:neg', 'op:abs', 'op:invert', 'op:pos', 'op:add', '
               'op:add_self', 'op:eq_self', 'op:hash']
 
 
+class _Skip(Exception):
+    pass
+
+
 def _operator(c, name, rng):
     import operator as o
     k = name[3:]
@@ -375,7 +379,12 @@ def _operator(c, name, rng):
     if k == 'rmul':
         return 2 * c
     if k == 'matmul':
-        return c @ np.asarray(c.values).T
+        v = np.asarray(c.values)
+        if v.dtype.kind not in 'biufc':
+            # NumPy 2.5.3 defect, not the library's: a matmul of object arrays that raises part-way releases references it does
+            # not own; after enough such calls a shared element is freed and the interpreter segfaults (DESIGN 10.4)
+            raise _Skip('matmul of non-numeric arrays')
+        return c @ v.T
     if k == 'len':
         return len(c)
     if k == 'iter':
@@ -406,6 +415,8 @@ def invoke(c, name, rng):
     if name.startswith('op:'):
         try:
             return Outcome('value', _operator(c, name, rng))
+        except _Skip as e:
+            return Outcome('skipped', note=str(e))
         except Exception as e:
             return Outcome('raised', e)
     if name in _SKIP or name.startswith('from_') or name.startswith('_'):
@@ -530,6 +541,41 @@ def check(case, ctx):
     return _check_serialize(case, ctx)
 
 
+def _index_lookups(idx):
+    """label -> position answers of an index, part of what 'did not change' means: the arrays and labels of a hierarchy can stay
+    as they were while the offsets that lookups go through were rewritten."""
+    try:
+        labels = list(idx)[:12]
+    except Exception as e:
+        return ('iteration_raised', type(e).__name__)
+    out = []
+    for lab in labels:
+        try:
+            out.append((cs(lab in idx), cs(idx.loc_to_iloc(lab))))
+        except Exception as e:
+            out.append(('raised', type(e).__name__))
+    return tuple(out)
+
+
+def _lookups(obj):
+    IndexBase = _IndexBase()
+    if isinstance(obj, IndexBase):
+        return (_index_lookups(obj),)
+    out = []
+    for a in ('index', 'columns'):
+        try:
+            i = getattr(obj, a, None)
+        except Exception:
+            continue
+        if isinstance(i, IndexBase):
+            out.append(_index_lookups(i))
+    return tuple(out)
+
+
+def _snapx(obj):
+    return (canon.snap(obj), _lookups(obj))
+
+
 def _check_history(case, ctx):
     import random
     import static_frame as sf
@@ -539,7 +585,7 @@ def _check_history(case, ctx):
     klass = {'t': 'history', 'cls': cls}
     if not check_readonly(ctx, root, dict(klass, attr='<constructed>'), 'construction'):
         return
-    pool = [{'obj': root, 'snap': canon.snap(root), 'origin': 'root'}]
+    pool = [{'obj': root, 'snap': _snapx(root), 'origin': 'root'}]
     for step in range(case['ncalls']):
         recv = rng.choice(pool)
         c = recv['obj']
@@ -557,10 +603,11 @@ def _check_history(case, ctx):
         k2 = dict(klass, receiver=cname, attr=name, outcome=out.kind)
         # 1. nothing alive changed (failing calls included)
         for live in pool:
-            now = canon.snap(live['obj'])
+            now = _snapx(live['obj'])
             if now != live['snap']:
-                ctx.violation('live_container_changed', detail={'call': f'{cname}.{name}({out.note})', 'container': live['origin'],
-                                                                'before': canon.brief(live['snap'], 500), 'after': canon.brief(now, 500)}, klass=k2)
+                part = 'lookups' if now[0] == live['snap'][0] else 'content'
+                ctx.violation('live_container_changed', detail={'call': f'{cname}.{name}({out.note})', 'container': live['origin'], 'part': part,
+                                                                'before': canon.brief(live['snap'], 600), 'after': canon.brief(now, 600)}, klass=dict(k2, part=part))
                 return
         if out.kind == 'raised':
             continue
@@ -585,7 +632,7 @@ def _check_history(case, ctx):
             if isinstance(r, tuple) and len(r) == 2 and _is_container(r[1]):
                 r = r[1]
             if _is_container(r) and len(pool) < 8:
-                pool.append({'obj': r, 'snap': canon.snap(r), 'origin': f'{cname}.{name}'})
+                pool.append({'obj': r, 'snap': _snapx(r), 'origin': f'{cname}.{name}'})
 
 
 # --------------------------------------------------------------------------------------
